@@ -628,6 +628,7 @@ func TestC05(t *testing.T) {
 		"distinct = distinct streams")
 	rep.RuleAdd("Also: complete v1 / unsigned v2 frames inside the clean streams of keyed readers (rejected as a unit); idle transports; a transport that answers io.EOF or an error once at a frame boundary and goes on; eight concurrent readers on one dialect.")
 	rep.RuleAdd("Rounds 12-15: keyed clean streams with refused complete v1 / unsigned v2 frames; transient transport errors at frame boundaries (io.EOF, wrapped EOF, net.Error), passed on with their identity.")
+	rep.RuleAdd("Rounds 16-17: with a caller-supplied buffered reader the consumed bytes are counted on the caller's own reader.")
 	rep.Assume("a transport error met in the middle of a frame may be reported inside a frame.ReadError (allowed result class)")
 	rep.Assume("chunking independence is asserted for fault-free streams only (the statement quantifies over streams and splittings, not faults)")
 	seed := vh.Seed()
